@@ -727,3 +727,73 @@ def r13(R):
                         key='changes storage asked for a blob it cannot '
                             'hold')
     R.require(n >= 2, 'blob readers of DemoStorage not found')
+
+
+# ----------------------------------------------------------------- C16.R14
+@rule('C16.R14', 'after a pack of the changes, "nothing before the bound" in '
+      'the changes is taken for "ask the base" only when the pack cannot '
+      'have removed what was there: pack() leaves a mark, and loadBefore '
+      'consults it before it falls back to the base for an object the '
+      'changes know', props=['C07', 'C08', 'C15'], min_instances=1)
+def r14(R):
+    ds = R.prog.cls(DS)
+    pk = R.method(ds, 'pack')
+    marks = set()
+    for s in walk_local(pk.node):
+        if isinstance(s, (ast.Assign, ast.AugAssign)):
+            tg = s.targets if isinstance(s, ast.Assign) else [s.target]
+            for t in tg:
+                if isinstance(t, ast.Attribute) and isinstance(
+                        t.value, ast.Name) and t.value.id == 'self':
+                    marks.add(t.attr)
+    f = R.method(ds, 'loadBefore')
+    g, b, F = R.cfg(f, ds, max_depth=0)
+    R.instance('DemoStorage.loadBefore', pack_marks=sorted(marks))
+    res = set()
+    for s in walk_local(f.node):
+        if isinstance(s, ast.Assign) and isinstance(s.value, ast.Call) and \
+                dotted(s.value.func) == ('self', 'changes', 'loadBefore'):
+            res |= {t.id for t in s.targets if isinstance(t, ast.Name)}
+    R.require(res, 'DemoStorage.loadBefore no longer asks the changes')
+
+    def edge(node, st, lab, tgt):
+        if node.kind == 'test' and lab in ('T', 'F'):
+            if st == 'known-nothing-before' and any(
+                    isinstance(x, ast.Attribute) and isinstance(
+                        x.value, ast.Name) and x.value.id == 'self' and
+                    x.attr in marks for x in ast.walk(node.ast)):
+                return 'pack-considered'
+            for e, truth in implied_atoms(node.ast, lab):
+                if isinstance(e, ast.Compare) and len(e.ops) == 1 and \
+                        isinstance(e.left, ast.Name) and e.left.id in res \
+                        and isinstance(e.comparators[0], ast.Constant) and \
+                        e.comparators[0].value is None and \
+                        isinstance(e.ops[0], ast.Is) == truth and \
+                        st == 'start':
+                    return 'known-nothing-before'
+                if isinstance(e, ast.Name) and e.id in res and not truth \
+                        and st == 'start':
+                    return 'known-nothing-before'
+        return st
+
+    def at(node, st):
+        for op in F.ops(node):
+            if op.kind == 'call' and path_is(
+                    op.path, ('self', 'base', 'loadBefore')) and \
+                    st == 'known-nothing-before':
+                return Violation(
+                    'DemoStorage.loadBefore answers with the base\'s '
+                    'revision for an object the changes know but have '
+                    'nothing of before the bound, without considering that '
+                    'a pack of the changes may have removed what was there: '
+                    'a reader whose snapshot is older than the pack silently '
+                    'reads the base\'s (older) state where a plain storage '
+                    'makes it fail with a retryable conflict error')
+        return st
+
+    vs, stats = explore(g, 'start', at=at, edge=edge)
+    R.count(stats)
+    for v in vs[:1]:
+        R.violation(v.node, v.message, g, v.path,
+                    key='base asked although a pack may have removed the '
+                        'revision')
